@@ -83,6 +83,16 @@ Definition w_f4 : squery :=
        SCons (SInline "MA" [] 3 (SCons (fld "name" "name" [] None) SNil))
       (SCons (SInline "MA" [] 4 (SCons (fld "m0" "m0" [] None) SNil)) SNil)))) SNil) [].
 
+(** inline fragments without type condition:
+    r1 { s0 ... @include(if: true) { f0 @include(if: false) } ... @skip(if: false) { f1 @skip(if: true) { s0 } } } *)
+Definition w_untyped : squery :=
+  mk_squery "" 1
+    (SCons (fld "r1" "r1" [] (Some (2,
+       SCons (fld "s0" "s0" [] None)
+      (SCons (SInline "" [SDir "include" (lit true)] 3 (SCons (fld "f0" "f0" [SDir "include" (lit false)] None) SNil))
+      (SCons (SInline "" [SDir "skip" (lit false)] 4
+                (SCons (fld "f1" "f1" [SDir "skip" (lit true)] (Some (5, SCons (fld "s0" "s0" [] None) SNil))) SNil)) SNil))))) SNil) [].
+
 Definition ref_result_of (S : schema) (vs : vars) (q : squery) (root : value) : option result :=
   match parse vs q with
   | None => None
